@@ -186,7 +186,12 @@ pub fn rand_val(rng: &mut Rng, ty: TagDataType, big: bool, noncanon: bool) -> (V
                 let mut st = String::with_capacity(n);
                 while st.len() < n { let left = n - st.len(); let c = match rng.below(8) { 0 if left >= 2 => 'é', 1 if left >= 3 => '€', 2 if left >= 4 => '😀', _ => (b'a' + rng.below(26) as u8) as char }; st.push(c); }
                 (Val::S(st), 0)
-            } else { let n = payload_len(rng, false).min(40); (Val::S(rand_utf8(rng, n)), 0) }
+            } else {
+                let n = payload_len(rng, false).min(40); let mut st = rand_utf8(rng, n);
+                // NUL characters are characters: at the end (a padded string), at the start, in the middle
+                match rng.below(8) { 0 => st.push('\0'), 1 => { st.push('\0'); st.push('\0'); } 2 => st.insert(0, '\0'), 3 => { let k = st.chars().count() / 2; let at = st.char_indices().nth(k).map(|x| x.0).unwrap_or(0); st.insert(at, '\0'); } _ => {} }
+                (Val::S(st), 0)
+            }
         }
         TagDataType::Binary => { let n = payload_len(rng, big); (Val::B(rng.bytes(n)), 0) }
     }
